@@ -160,6 +160,152 @@ pub fn replay_line(st: &mut Stats, prop: &str, line: &Value) {
     }
 }
 
+/// Beyond TLC's sizes: two ontologies of about 2,000 terms that differ by a known list of edits of every kind.  The expected report
+/// is the set difference of the two fact sets, computed here exactly as spec/HpoCompare.tla defines it, and checked by the same code
+/// as every TLC-emitted pair.
+pub fn big_compare_case(st: &mut Stats, prop: &str, seed: u64) {
+    use crate::scenario::{Fact, Kind, Scenario, TermSpec, KINDS};
+    use std::collections::BTreeMap;
+    let mut rng = Rng::new(seed ^ 0xC18);
+    let n = 2_000u32;
+    let id_of = |i: u32| 1_000 + i * 7;
+    let mut l = Scenario::default();
+    l.version = (2024, 6, 7);
+    l.terms.push(TermSpec { id: 1, name: "All".into(), obsolete: false, repl: None });
+    l.terms.push(TermSpec { id: 118, name: "Phenotypic abnormality".into(), obsolete: false, repl: None });
+    l.edges.push((1, 118));
+    for i in 0..n {
+        let obsolete = i % 97 == 13;
+        l.terms.push(TermSpec { id: id_of(i), name: format!("term {i}"), obsolete, repl: if obsolete && i % 2 == 1 { Some(id_of(i / 2)) } else { None } });
+        let k = 1 + rng.below(3);
+        let mut ps = BTreeSet::new();
+        for _ in 0..k {
+            ps.insert(if i < 20 { 118 } else { id_of(rng.below(i as u64) as u32) });
+        }
+        if i == n - 1 {
+            for j in 0..40 {
+                ps.insert(id_of(j * 3)); // more than 30 direct parents
+            }
+        }
+        for p in ps {
+            l.edges.push((p, id_of(i)));
+        }
+    }
+    for x in 0..60u32 {
+        let kind = KINDS[(x % 3) as usize];
+        let cnt = if x == 0 { 200 } else { 3 + rng.below(50) };
+        let mut ts = BTreeSet::new();
+        for _ in 0..cnt {
+            ts.insert(id_of(rng.below(n as u64) as u32));
+        }
+        for t in ts {
+            l.facts.push(Fact { kind, x: 100 + x / 3, name: format!("{}{}", kind.name(), 100 + x / 3), term: Some(t) });
+        }
+    }
+    // the edits
+    let mut r = l.clone();
+    let has_child: BTreeSet<u32> = r.edges.iter().map(|e| e.0).collect();
+    for j in 0..10u32 {
+        r.terms[(50 + j * 31) as usize].name.push_str(" (renamed)");
+    }
+    for j in 0..5u32 {
+        let t = &mut r.terms[(70 + j * 53) as usize];
+        t.obsolete = !t.obsolete;
+    }
+    for j in 0..5u32 {
+        r.terms[(90 + j * 41) as usize].repl = Some(id_of(j));
+    }
+    // moved: replace one parent by another earlier term; added / removed parents
+    for j in 0..10u32 {
+        let c = id_of(300 + j * 17);
+        if let Some(e) = r.edges.iter_mut().find(|e| e.1 == c) {
+            e.0 = id_of(j + 5);
+        }
+        r.edges.push((id_of(j + 40), id_of(500 + j * 19)));
+    }
+    r.edges.sort_unstable();
+    r.edges.dedup();
+    for j in 0..10u32 {
+        let c = id_of(800 + j * 23);
+        let ps: Vec<usize> = r.edges.iter().enumerate().filter(|(_, e)| e.1 == c).map(|(i, _)| i).collect();
+        if ps.len() >= 2 {
+            r.edges.remove(ps[0]);
+        }
+    }
+    // removed terms: leaves only (and every reference to them), added terms
+    let removed: Vec<u32> = (0..n).rev().map(id_of).filter(|t| !has_child.contains(t)).take(5).collect();
+    r.terms.retain(|t| !removed.contains(&t.id));
+    r.edges.retain(|e| !removed.contains(&e.1));
+    r.facts.retain(|f| f.term.map_or(true, |t| !removed.contains(&t)));
+    for t in r.terms.iter_mut() {
+        if t.repl.map_or(false, |x| removed.contains(&x)) {
+            t.repl = None;
+        }
+    }
+    for j in 0..5u32 {
+        r.terms.push(TermSpec { id: 9_000_000 + j, name: format!("new {j}"), obsolete: false, repl: None });
+        r.edges.push((118, 9_000_000 + j));
+    }
+    // records: annotate, unannotate, rename, add, remove
+    for j in 0..10u32 {
+        r.facts.push(Fact { kind: KINDS[(j % 3) as usize], x: 100 + j, name: format!("{}{}", KINDS[(j % 3) as usize].name(), 100 + j), term: Some(id_of(1_500 + j)) });
+    }
+    for j in 0..10u32 {
+        let (kind, x) = (KINDS[(j % 3) as usize], 110 + j % 8);
+        if let Some(i) = r.facts.iter().position(|f| f.kind == kind && f.x == x) {
+            r.facts.remove(i);
+        }
+    }
+    for f in r.facts.iter_mut().filter(|f| f.x == 105) {
+        f.name.push_str("-renamed");
+    }
+    r.facts.retain(|f| f.x != 119);
+    for k in KINDS {
+        r.facts.push(Fact { kind: k, x: 999, name: "brand new".into(), term: Some(118) });
+    }
+    // the expected report: set differences (spec/HpoCompare.tla)
+    type TermRow = (String, bool, u32, BTreeSet<u32>);
+    let rows = |s: &Scenario| -> BTreeMap<u32, TermRow> {
+        let ids: BTreeSet<u32> = s.terms.iter().map(|t| t.id).collect();
+        s.terms.iter().map(|t| (t.id, (t.name.clone(), t.obsolete, t.repl.filter(|x| ids.contains(x)).unwrap_or(0), s.edges.iter().filter(|e| e.1 == t.id).map(|e| e.0).collect()))).collect()
+    };
+    let recs = |s: &Scenario, k: Kind| -> BTreeMap<u32, (String, BTreeSet<u32>)> {
+        let mut m: BTreeMap<u32, (String, BTreeSet<u32>)> = BTreeMap::new();
+        for f in s.facts.iter().filter(|f| f.kind == k) {
+            let e = m.entry(f.x).or_insert_with(|| (f.name.clone(), BTreeSet::new()));
+            if let Some(t) = f.term {
+                e.1.insert(t);
+            }
+        }
+        m
+    };
+    let (tl, tr) = (rows(&l), rows(&r));
+    let mut changed = vec![];
+    for (id, a) in &tl {
+        if let Some(b) = tr.get(id) {
+            if a != b {
+                changed.push(json!({"id": id, "name_changed": a.0 != b.0, "added_parents": b.3.difference(&a.3).collect::<Vec<_>>(), "removed_parents": a.3.difference(&b.3).collect::<Vec<_>>(),
+                    "obsolete": [a.1, b.1], "repl": [a.2, b.2]}));
+            }
+        }
+    }
+    let mut cmp = json!({"added_terms": tr.keys().filter(|k| !tl.contains_key(k)).collect::<Vec<_>>(), "removed_terms": tl.keys().filter(|k| !tr.contains_key(k)).collect::<Vec<_>>(), "changed_terms": changed});
+    for k in KINDS {
+        let (a, b) = (recs(&l, k), recs(&r, k));
+        let ch: Vec<Value> = a.iter().filter_map(|(x, ra)| b.get(x).filter(|rb| *rb != ra).map(|rb| json!({"id": x, "name_changed": ra.0 != rb.0,
+            "added": rb.1.difference(&ra.1).collect::<Vec<_>>(), "removed": ra.1.difference(&rb.1).collect::<Vec<_>>(), "n": [ra.1.len(), rb.1.len()]}))).collect();
+        cmp[k.name()] = json!({"added": b.keys().filter(|x| !a.contains_key(x)).collect::<Vec<_>>(), "removed": a.keys().filter(|x| !b.contains_key(x)).collect::<Vec<_>>(), "changed": ch});
+    }
+    let enc = |s: &Scenario| -> Vec<u8> { crate::enc::encode(&crate::enc::abstract_of_ordered(s, false), 3) };
+    let line = json!({"big": seed, "lbytes": enc(&l), "rbytes": enc(&r), "cmp": cmp});
+    let before = st.violations.len();
+    replay_line(st, prop, &line);
+    // the replay file of a big case holds the seed, not 200 kB of bytes
+    for v in st.violations.iter_mut().skip(before) {
+        v.replay = json!({"cmd": "replay-compare", "property": prop, "big_compare": seed, "diffs": v.replay["diffs"].clone()});
+    }
+}
+
 pub fn run(args: &Args) {
     silence_panics();
     let Some(shard) = shard_or_spawn("replay-compare", args) else { return };
@@ -179,5 +325,24 @@ pub fn run(args: &Args) {
     for l in &lines {
         guard_case(&mut st, &prop, "replay-compare", l, |st| replay_line(st, &prop, l));
     }
+    if shard.0 == shard.1 / 2 {
+        let seed = args.num("seed", 1);
+        guard_case(&mut st, &prop, "replay-compare", &json!({"big_compare": seed}), |st| big_compare_case(st, &prop, seed));
+    }
     finish(st, args.req("out"), args.req("replay-dir"), json!({"lines": lines.len()}));
+}
+
+pub fn replay_one(v: &Value) -> bool {
+    silence_panics();
+    let mut st = Stats::default();
+    let prop = v["property"].as_str().unwrap_or("C18").to_string();
+    if let Some(seed) = v.get("big_compare").and_then(|s| s.as_u64()) {
+        big_compare_case(&mut st, &prop, seed);
+    } else {
+        guard_case(&mut st, &prop, "replay-compare", &v["line"], |st| replay_line(st, &prop, &v["line"]));
+    }
+    for x in &st.violations {
+        println!("reproduced: {}", x.what);
+    }
+    !st.violations.is_empty()
 }
